@@ -47,7 +47,11 @@ META = {
             "Serializer registry; hash containers are duplicate-free insertion-ordered lists (iteration order of the "
             "real ones is canonicalised by sorting).  No byte outside the limit is visible to a parser by "
             "construction of the stream model; memory safety of the real code is checked by the sanitizer runs.  "
-            "Fixed in /repo and now checked positively: stale member size cache (b1345b6), ignored failure of a "
+            "Fixed in /repo and now checked positively: TRIVIAL size complexity inherited by smart pointers (8a146e9: "
+            "regenerated, c11_size_exact covers vectors/arrays of such elements again, size/crash monitors incl. empty "
+            "vectors), base not counted in the whole-object cache decision (fed2aee: the size caches are not "
+            "modelled, so this one stays monitor-only - mon_fresh serializes a pristine object before any size "
+            "calculation - plus a translator target on the tally), stale member size cache (b1345b6), ignored failure of a "
             "length-prefix read (e367940; reverting either breaks a translator target, the latter also re-opens "
             "SEHang.dec_len_prog).  Still false of the code and kept as *_refuted theorems with witnesses replayed on "
             "the real classes (KNOWN_FINDINGS): null pointers to scalars inside containers vanish (and such a vector "
@@ -80,6 +84,11 @@ TYPES = {
     "ptrs": "( agg 1 ( up str ) 2 ( up i32 ) 3 ( sp %s ) 4 ( vec ( up %s ) ) 5 ( sp %s ) 6 ( up %s ) 7 ( vec ( sp str ) ) )"
             % (INNER, INNER, ONLYSTR, ONLYSTR),
     "aggvupi": "( agg 1 ( vec ( up i32 ) ) 2 i32 )",
+    "vupf": "( vec ( up f32 ) )", "lspd": "( list ( sp f64 ) )", "vpf": "( vec ( agg 1 ( up f32 ) ) )",
+    "holdpf": "( agg 1 ( vec ( agg 1 ( up f32 ) ) ) 2 i32 3 ( arr 2 ( sp f64 ) ) )",
+    "dvec": "( agg 1 ( vec str ) 2 i32 )", "dvec0": "( agg 1 ( vec str ) )",
+    "dlist": "( agg 3 ( list i32 ) 1 str 2 i64 )", "dmap": "( agg 1 ( map str i32 ) 2 i32 )",
+    "donly": "( agg 4 %s )" % ONLYSTR,
     "arr": "( agg 1 ( arr 3 i32 ) 2 ( arr 2 %s ) 3 ( arr 2 f32 ) 4 ( arr 2 str ) )" % INNER,
     "derived": "( agg 1 %s 5 i64 7 ( vec %s ) )" % (INNER, INNER),
     "auto": "( agg 1 u32 2 str 3 ( vec i64 ) )",
@@ -221,6 +230,33 @@ def packed_scalar_ptr(ty):
     if k == "agg":
         return any(packed_scalar_ptr(t) for _, t in ty[1])
     return False
+
+
+def trivial(ty):
+    """TRIVIAL size complexity as the code computed it BEFORE fix 8a146e9 (smart pointers inherited it from the
+    pointee): only used to label a recurrence of that defect with its own signature"""
+    if ty[0] == "s":
+        return ty[1] in ("f32", "f64")
+    if ty[0] in ("up", "sp"):
+        return trivial(ty[1])
+    if ty[0] == "agg":
+        return all(trivial(t) for _, t in ty[1])
+    return False
+
+
+def trivial_ptr_container(ty):
+    """a vector/array whose TRIVIAL elements hide a smart pointer: sized as size() * size(value[0])"""
+    k = ty[0]
+    if k in ("vec", "arr"):
+        e = ty[-1]
+        if trivial(e) and has_kind(e, ("up", "sp")):
+            return True
+    if k == "agg":
+        return any(trivial_ptr_container(t) for _, t in ty[1])
+    return any(trivial_ptr_container(x) for x in ty[1:] if isinstance(x, tuple))
+
+
+DERIVED_FROM_CONTAINER = ("dvec", "dvec0", "dlist", "dmap")
 
 
 def rnd_bytes(rng, n):
@@ -569,6 +605,15 @@ def main(argv):
                   ("ups", "P s6162"), ("sps", "P s00"), ("upin", "P [ 5 s61 ]"), ("spin", "P [ 0 s ]"),
                   ("ptrs", "[ P s61 P 8 P [ 1 s62 ] [ P [ 2 s ] ] P [ s63 [ 1 ] ] P [ s [ 2 ] ] [ P s64 ] ]"),
                   ("ptrs", "[ N P 0 N [ ] N N [ ] ]")]
+        f1, f2 = 1065353216, 1073741824
+        fixed += [("vupf", "[ N P %d P %d ]" % (f1, f2)), ("vupf", "[ P %d N ]" % f1), ("vupf", "[ P %d P %d ]" % (f1, f2)),
+                  ("lspd", "[ P 0 N P 1 ]"), ("vpf", "[ [ N ] [ P %d ] ]" % f1), ("vpf", "[ [ P %d ] [ N ] [ P %d ] ]" % (f1, f2)),
+                  ("vpf", "[ [ P %d ] [ P %d ] ]" % (f1, f2)),
+                  ("holdpf", "[ [ [ P %d ] [ N ] ] 5 [ P 0 N ] ]" % f1), ("holdpf", "[ [ [ N ] [ P %d ] ] 0 [ N P 1 ] ]" % f2),
+                  ("holdpf", "[ [ ] 1 [ P 1 P 2 ] ]"),
+                  ("dvec", "[ [ s6162 s63 ] 7 ]"), ("dvec", "[ [ ] 0 ]"), ("dvec0", "[ [ s6162 ] ]"), ("dvec0", "[ [ ] ]"),
+                  ("dlist", "[ [ 1 -1 300 ] s61 5 ]"), ("dmap", "[ [ [ s61 1 ] [ s 2 ] ] 3 ]"),
+                  ("donly", "[ [ s61 [ 1 2 ] ] ]"), ("derived", "[ [ 5 s61 ] -1 [ [ 1 s ] ] ]")]
         for name, val in fixed:
             vcases.append({"id": "v%d" % i, "type": name, "val": val})
             i += 1
@@ -590,8 +635,13 @@ def main(argv):
         for cid, l in res.items():
             menc[cid] = kv(l)[0] if " enc=" in l else {"error": l}
 
-    def classify_rt(name):
-        return "null-scalar-ptr-in-container-lost" if packed_scalar_ptr(tys.get(name) or shapes[name]) else "roundtrip"
+    def classify_rt(name, default="roundtrip"):
+        ty_ = tys.get(name) or shapes[name]
+        if packed_scalar_ptr(ty_):
+            return "null-scalar-ptr-in-container-lost"
+        if trivial_ptr_container(ty_):
+            return "trivial-size-smart-pointer-in-container"
+        return default
 
     # ---------------------------------------------------------------- value cases on the implementation
     probes = []          # (case, harness line, why) the model predicts not to return
@@ -619,7 +669,8 @@ def main(argv):
         ty = tys.get(name) or shapes[name]
         rep = {"kind": "V", "type": name, "value": c["val"]}
         if l.startswith("CRASH") or " ser=" not in l:
-            chk.violate("impl-crash-on-valid-value", "serializing/parsing a %s value kills the process: %s" % (name, l[:300]), rep)
+            chk.violate("trivial-size-smart-pointer-in-container" if trivial_ptr_container(ty) else "impl-crash-on-valid-value",
+                        "serializing/parsing a %s value kills the process: %s" % (name, l[:300]), rep)
             continue
         d, mon = kv(l)
         m = menc.get(c["id"])
@@ -629,11 +680,18 @@ def main(argv):
         elif has_kind(ty, ("up", "sp")):
             expect = None
         if mon.get("mon_size") != "1":
-            chk.violate("size-mismatch", "calculate_serialized_size of a %s = %s but %d bytes are written (value %s)"
+            sig = "trivial-size-smart-pointer-in-container" if trivial_ptr_container(ty) else "size-mismatch"
+            chk.violate(sig, "calculate_serialized_size of a %s = %s but %d bytes are written (value %s)"
                         % (name, d.get("pred"), len(d.get("ser", "")) // 2, c["val"][:200]), rep)
         if mon.get("mon_routes") != "1":
-            chk.violate("routes-differ", "serialize_to_string / to_array_with_cached_size / to_coded_stream of a %s "
+            sig = "trivial-size-smart-pointer-in-container" if trivial_ptr_container(ty) else "routes-differ"
+            chk.violate(sig, "serialize_to_string / to_array_with_cached_size / to_coded_stream of a %s "
                         "produce different bytes (value %s)" % (name, c["val"][:200]), rep)
+        if mon.get("mon_fresh") != "1":
+            sig = "fresh-object-base-size-cache-unset" if name in DERIVED_FROM_CONTAINER else "first-serialization-differs"
+            chk.violate(sig, "serialize_to_string of a freshly built %s (no calculate_serialized_size before it) writes %s, "
+                        "after a size calculation the same value writes %s (value %s)"
+                        % (name, d.get("ser0", "")[:80], d.get("ser", "")[:80], c["val"][:160]), rep)
         if expect is not None:
             top_vec = ty[0] == "vec"
             for p in ("p0", "p1", "p4", "p2", "p3", "p5"):
@@ -692,7 +750,8 @@ def main(argv):
             l = res.get(c["id"], "")
             rep = {"kind": "R", "type": c["type"], "value1": c["val1"], "value2": c["val2"]}
             if " ser=" not in l:
-                chk.violate("impl-crash-on-valid-value", "re-use case kills the process: %s" % l[:300], rep)
+                chk.violate("trivial-size-smart-pointer-in-container" if trivial_ptr_container(tys.get(c["type"]) or shapes[c["type"]]) else "impl-crash-on-valid-value",
+                            "re-use case kills the process: %s" % l[:300], rep)
                 continue
             d, mon = kv(l)
             if mon.get("mon_reuse") != "1" or mon.get("mon_size") != "1":
@@ -807,10 +866,12 @@ def main(argv):
             rep = {"kind": "D", "type": name, "hex": c["hex"], "ndebug": nd}
             if " res=" not in l:
                 if "Sanitizer" in l or "runtime error" in l:
-                    chk.violate("hostile-input-memory-error", "parsing %s as %s under ASan+UBSan (NDEBUG): %s"
+                    chk.violate("trivial-size-smart-pointer-in-container" if trivial_ptr_container(ty) else "hostile-input-memory-error",
+                                "parsing %s as %s under ASan+UBSan (NDEBUG): %s"
                                 % (c["hex"][:80], name, l[:400]), rep)
                 else:
-                    chk.violate("hostile-input-kills-process", "parsing %d bytes as %s (%s build) does not return: %s"
+                    chk.violate("trivial-size-smart-pointer-in-container" if trivial_ptr_container(ty) else "hostile-input-kills-process",
+                                "parsing %d bytes as %s (%s build) does not return: %s"
                                 % (len(c["hex"]) // 2, name, "NDEBUG" if nd == "1" else "debug", l[:300]), rep)
                 continue
             d, mon = kv(l)
@@ -824,7 +885,8 @@ def main(argv):
             if res.startswith("1:"):
                 ok_cases += 1
                 if d.get("serok") != "1" or str(len(d.get("reser", "")) // 2) != d.get("resize"):
-                    chk.violate("size-mismatch", "the %s a successful parse returned predicts %s bytes but writes %d"
+                    chk.violate("trivial-size-smart-pointer-in-container" if trivial_ptr_container(ty) else "size-mismatch",
+                                "the %s a successful parse returned predicts %s bytes but writes %d"
                                 % (name, d.get("resize"), len(d.get("reser", "")) // 2), rep)
                 re_ = canon_res(ty, d.get("re"))
                 stable = re_ == res
@@ -832,7 +894,7 @@ def main(argv):
                     # a smart pointer to a value with an empty encoding may come back null
                     stable = "norm" in md and re_ == canon_res(ty, "1:" + md["norm"]) and canon_res(ty, md.get("res")) == res
                 if not stable:
-                    chk.violate("success-not-stable" if not packed_scalar_ptr(ty) else "null-scalar-ptr-in-container-lost",
+                    chk.violate(classify_rt(name, "success-not-stable"),
                                 "parse of %s as %s succeeds with %s but that value serializes and parses back to %s"
                                 % (c["hex"][:80], name, res[:120], (re_ or "")[:120]), rep)
             run = cont_run(c["hex"])
